@@ -21,6 +21,72 @@ func init() {
 		atomic.AddInt64(&probeTagParses, 1)
 		return &probeNode{}, nil
 	})
+	// a tag and a filter that share one name: the two deny lists are separate
+	pongo2.RegisterFilter("veriftwin", func(in *pongo2.Value, param *pongo2.Value) (*pongo2.Value, *pongo2.Error) {
+		return pongo2.AsValue("twin-filter:" + in.String()), nil
+	})
+	pongo2.RegisterTag("veriftwin", func(doc *pongo2.Parser, start *pongo2.Token, arguments *pongo2.Parser) (pongo2.INodeTag, *pongo2.Error) {
+		return &twinNode{}, nil
+	})
+}
+
+type twinNode struct{}
+
+func (n *twinNode) Execute(ctx *pongo2.ExecutionContext, w pongo2.TemplateWriter) *pongo2.Error {
+	w.WriteString("twin-tag")
+	return nil
+}
+
+// c03Twins: banning a tag says nothing about the filter of the same name, and the other way round
+func c03Twins(res *Result) {
+	type use struct{ src, want string }
+	tagUse := use{"{% veriftwin %}", "twin-tag"}
+	filterUses := []use{{"{{ \"x\"|veriftwin }}", "twin-filter:x"}, {"{% filter veriftwin %}y{% endfilter %}", "twin-filter:y"}, {"{% if \"x\"|veriftwin %}z{% endif %}", "z"}}
+	for _, mode := range []string{"tag", "filter", "filter-then-tag", "tag-then-filter"} {
+		set := pongo2.NewSet("twins", &memLoader{files: map[string]string{}})
+		var errs []error
+		switch mode {
+		case "tag":
+			errs = append(errs, set.BanTag("veriftwin"))
+		case "filter":
+			errs = append(errs, set.BanFilter("veriftwin"))
+		case "filter-then-tag":
+			errs = append(errs, set.BanFilter("veriftwin"), set.BanTag("veriftwin"))
+		default:
+			errs = append(errs, set.BanTag("veriftwin"), set.BanFilter("veriftwin"))
+		}
+		res.Cases++
+		res.DistinctNontrivial++
+		for _, e := range errs {
+			if e != nil {
+				res.add(Finding{Kind: "oracle", Proj: "ban", Sig: "c03-twin-ban-refused", Case: "bans: " + mode, Impl: e.Error(), Model: "a tag and a filter of one name are banned independently"})
+			}
+		}
+		tagBanned := mode != "filter"
+		filterBanned := mode != "tag"
+		check := func(u use, banned bool, what string) {
+			tpl, err := set.FromString(u.src)
+			if banned {
+				if err == nil {
+					res.add(Finding{Kind: "oracle", Proj: "ban", Sig: "c03-banned-name-used", Case: u.src + " after bans: " + mode, Impl: "compiled", Model: "the banned " + what + " is rejected"})
+				}
+				return
+			}
+			got := "compile: "
+			if err == nil {
+				got = execOnce(tpl, nil).String()
+			} else {
+				got += err.Error()
+			}
+			if got != "ok "+hxb(u.want) {
+				res.add(Finding{Kind: "oracle", Proj: "ban", Sig: "c03-unbanned-name-rejected", Case: u.src + " after bans: " + mode, Impl: got, Model: "the " + what + " was never banned: ok " + hxb(u.want)})
+			}
+		}
+		check(tagUse, tagBanned, "tag")
+		for _, u := range filterUses {
+			check(u, filterBanned, "filter")
+		}
+	}
 }
 
 var probeFilterRuns, probeTagParses, probeTagRuns int64
@@ -144,6 +210,7 @@ func (c c03case) run(ban bool) (compileErr, execErr error, out string, fetches i
 }
 
 func suiteC03Routes(cfg Config, res *Result) {
+	defer c03Twins(res)
 	res.Rule = "every registered filter and tag (from the VerifRegistered* hooks, plus a probe filter and a probe tag that count their invocations) as ban target x syntactic routes (26 expression positions / 9 nestings) x file-composition routes (same file, include, nested include, lazy include, extends parent, child block, imported macro, ssi parsed; for the probes also with the files present on the real file system under absolute names, so that a sub-template compiled outside its set would be found); oracle: with the ban the use fails to compile (lazy include: to execute), the probes never run, an include of a banned 'include' fetches nothing; without the ban, in another set, the same source works through every route it works in when written directly; a source not using the name renders the same with and without the ban; non-trivial = all; distinct by (target, route)"
 	filters := pongo2.VerifRegisteredFilters()
 	tags := pongo2.VerifRegisteredTags()
